@@ -79,7 +79,7 @@ def one_case(ctx, out, req, exact, outcome, nout=1, nout_arg=None, extra_outputs
 
 def run(ctx):
     out_ = Outcome()
-    n = 40 if ctx.tier == "quick" else 1200
+    n = 40 if ctx.tier == "quick" else 500
     r = ctx.rng
     dist = {}
     for i in range(n):
